@@ -68,12 +68,16 @@ ReuseFails(e) == (IF e.err2 # "" \/ e.errfresh # "" THEN Tag(e.err2 = e.errfresh
 \* a decoder given bufs[lo..hi) must leave the WHOLE backing array (incl. the spare capacity behind hi) untouched
 SubsliceFails(e) == Tag(e.post = e.pre, "C10.bounds")
 BandFails(e) == Tag(e.after = e.before /\ e.fresh = e.before, "C10.band")
+\* two objects mutated one after the other: the first keeps its state, the second ends like one that was mutated alone
+Band2Fails(e) == Tag(e.aafter = e.abefore /\ e.b = e.solo, "C10.band")
 
 Fails(e) == CASE e.ev = "reset" -> <<>>
               [] e.ev = "own" -> OwnFails(e)
               [] e.ev = "reuse" -> ReuseFails(e)
               [] e.ev = "bandiso" -> BandFails(e)
+              [] e.ev = "bandiso2" -> Band2Fails(e)
               [] e.ev = "subslice" -> SubsliceFails(e)
+              [] e.ev = "hang" -> <<e.prop \o ".hang">>    \* a call that never returned (recorded by the watchdog of the harness)
               [] OTHER -> <<"unknown-event">>
 Init == l = 1 /\ nfail = 0 /\ bufs = <<>> /\ vals = <<>>
 \* after a mismatch the model adopts the OBSERVED state, so that the rest of the trace is examined
